@@ -31,12 +31,16 @@ ASSUMPTIONS = [
 ]
 
 
-def fixed_messages(n):
+def fixed_messages(n, long=False):
     from indi import message
     from indi.message import one_parts
 
     out = []
     for i in range(n):
+        if long and i == 0:
+            # longer than any plausible single write / read size
+            out.append(message.SetTextVector(device="D", name="P0", state="Ok", children=(one_parts.OneText(name="a", value="L" + "0123456789" * 330 + "R"),)))
+            continue
         if i % 3 == 0:
             out.append(message.SetTextVector(device="D", name=f"P{i}", state="Ok", children=(one_parts.OneText(name="a", value=f"v{i}"), one_parts.OneText(name="b", value="x>y"))))
         elif i % 3 == 1:
@@ -123,7 +127,7 @@ class Rig:
         self.loop.shutdown()
 
 
-def run_schedule(conns, msgs_fn, gaps, stalled, choose):
+def run_schedule(conns, msgs_fn, gaps, stalled, choose):  # noqa: C901
     """One execution under the schedule given by `choose`. Returns nontrivial flag."""
     rig = Rig(conns, stalled)
     try:
@@ -180,9 +184,9 @@ def check_config(case):
 
     def scenario(choose, trace):
         try:
-            nt = run_schedule(conns, lambda: fixed_messages(n), gaps, stalled, choose)
+            nt = run_schedule(conns, lambda: fixed_messages(n, case.get("long", False)), gaps, stalled, choose)
         except Failure as f:
-            f.min_case = {"conns": conns, "n": n, "gaps": gaps, "stalled": stalled, "choices": [c for c, _ in trace]}
+            f.min_case = {"conns": conns, "n": n, "gaps": gaps, "stalled": stalled, "choices": [c for c, _ in trace], "long": case.get("long", False)}
             f.min_sub = "schedule"
             raise
         counters["n"] += 1
@@ -199,17 +203,17 @@ def check_schedule(case):
     if case.get("msgs"):
         msgs_fn = lambda: [gen.build(s) for s in case["msgs"]]  # noqa: E731
     else:
-        msgs_fn = lambda: fixed_messages(case["n"])  # noqa: E731
+        msgs_fn = lambda: fixed_messages(case["n"], case.get("long", False))  # noqa: E731
     nt = run_schedule(case["conns"], msgs_fn, case.get("gaps") or [False], case.get("stalled"), lambda n: ch.next(n))
     return Info(nontrivial=nt, labels=["+".join(case["conns"])] + (["stalled"] if case.get("stalled") is not None else []))
 
 
-def run_interleaved(conns, n, choose, max_steps=40):
+def run_interleaved(conns, n, choose, max_steps=40, long=False):
     """Fine-grained schedule: at every choice point the scheduler may route the next message (inside one loop
     iteration), run exactly one loop iteration, or complete one pending awaitable WITHOUT running the loop."""
     rig = Rig(conns, None)
     try:
-        msgs = fixed_messages(n)
+        msgs = fixed_messages(n, long)
         routed = 0
         steps = 0
         trace = []
@@ -280,15 +284,15 @@ def check_interleave(case):
     conns, n = case["conns"], case["n"]
     if case.get("choices") is not None:
         ch = gen.Chooser(case["choices"])
-        run_interleaved(conns, n, lambda k: ch.next(k), case.get("max_steps", 14))
+        run_interleaved(conns, n, lambda k: ch.next(k), case.get("max_steps", 14), case.get("long", False))
         return Info(nontrivial=n >= 2, labels=["+".join(conns)])
     counters = {"n": 0}
 
     def scenario(choose, trace):
         try:
-            run_interleaved(conns, n, choose, case.get("max_steps", 14))
+            run_interleaved(conns, n, choose, case.get("max_steps", 14), case.get("long", False))
         except Failure as f:
-            f.min_case = {"conns": conns, "n": n, "max_steps": case.get("max_steps", 14), "choices": [c for c, _ in trace]}
+            f.min_case = {"conns": conns, "n": n, "max_steps": case.get("max_steps", 14), "choices": [c for c, _ in trace], "long": case.get("long", False)}
             raise
         counters["n"] += 1
 
@@ -318,12 +322,17 @@ def configs(tier):
                     if stalled is not None and len(conns) == 1:
                         continue
                     yield {"conns": conns, "n": n, "gaps": gaps, "stalled": stalled}
+                    if 2 <= n <= 3 and len(conns) <= 2:
+                        yield {"conns": conns, "n": n, "gaps": gaps, "stalled": stalled, "long": True}
 
 
 burst_case = st.fixed_dictionaries(
     {
         "conns": st.lists(st.sampled_from(["tcp", "tcp", "tty", "cli"]), min_size=1, max_size=3).filter(lambda c: c.count("tty") <= 1),
-        "msgs": st.lists(gen.msg_spec(kinds=[k for k in gen.FROM_DEVICE if k != "setBLOBVector"], max_children=2), min_size=1, max_size=6),
+        "msgs": st.lists(
+            gen.msg_spec(kinds=[k for k in gen.FROM_DEVICE if k != "setBLOBVector"], max_children=2)
+            | st.integers(1100, 5000).map(lambda k: {"kind": "message", "attrs": {"device": "D", "message": "x" * k}, "text": None, "children": []}),
+            min_size=1, max_size=6),
         "gaps": st.lists(st.booleans(), min_size=1, max_size=4),
         "stalled": st.none() | st.integers(0, 2),
         "choices": st.lists(st.integers(0, 11), max_size=30),
@@ -337,6 +346,7 @@ def run(ctx):
     inter = [{"conns": c, "n": n, "max_steps": ms} for c, n, ms in (
         (["tcp"], 2, 12), (["tcp"], 3, 11), (["tty"], 2, 12), (["tty"], 3, 10), (["cli"], 3, 11), (["tcp", "tcp"], 2, 9),
     )]
+    inter += [{"conns": c, "n": 2, "max_steps": 12, "long": True} for c in (["tcp"], ["tty"], ["cli"])]
     if ctx.tier == "thorough":
         inter += [{"conns": c, "n": n, "max_steps": ms, "max_runs": 400000} for c, n, ms in ((["tcp"], 4, 13), (["cli"], 4, 13), (["tty"], 3, 13), (["tcp", "tty"], 2, 11))]
     cnt2 = ctx.each("interleave", inter, check_interleave, stop_after=3, timeout=3000)
